@@ -63,7 +63,8 @@ def gen_model(rng: random.Random, *, max_demes=6, time_scale=8, gen_times=(1, 2,
     m.header["description"] = rng.choice(DESCRIPTIONS)
     m.header["doi"] = rng.choice([[], [], ["10.1000/xyz"], ["a", "b"]])
     m.header["metadata"] = rng.choice(
-        [{}, {}, {"k": 1}, {"a": {"b": [1, 2.5, "s", None]}, "c": "Infinity"}, {"flag": True, "n": None}]
+        [{}, {}, {"k": 1}, {"a": {"b": [1, 2.5, "s", None]}, "c": "Infinity"}, {"flag": True, "n": None},
+         {"time": 2500, "sampling": {"start_time": 100, "end_time": [5, 7.5], "demes": [{"name": "x", "start_time": 64}]}, "rate": 0.5}]
     )
     ngrid = rng.randint(2, 6)
     grid = sorted(rng.sample([time_scale * i for i in range(1, 13)], ngrid), reverse=True)
@@ -570,17 +571,19 @@ def overlap_variant(m: Model, rng: random.Random):
     mg["_eff"] = [(mg["source"], mg["dest"], s1, e1)]
     new = dict(source=mg["source"], dest=mg["dest"], start_time=s2, end_time=e2, rate=rng.choice([0, Fraction(1, 64), Fraction(1, 64)]),
                _eff=[(mg["source"], mg["dest"], s2, e2)])
+    if rng.random() < 0.25:
+        # the second one written as a SYMMETRIC migration that lists the pair (in either order)
+        pair = [mg["source"], mg["dest"]]
+        rng.shuffle(pair)
+        new = dict(demes=pair, start_time=s2, end_time=e2, rate=new["rate"],
+                   _eff=[(pair[0], pair[1], s2, e2), (pair[1], pair[0], s2, e2)])
     idx = m2.migrations.index(mg)
     if rng.random() < 0.5:
         m2.migrations.insert(idx + 1, new)
     else:
         m2.migrations.insert(idx, new)
-    overlapping = s1 > e2 and s2 > e1
-    # other migrations of the same pair may overlap too
-    for other in m2.migrations:
-        if other is mg or other is new:
-            continue
-        for (src, dst, s, e) in other["_eff"]:
-            if src == mg["source"] and dst == mg["dest"] and ((s > e2 and s2 > e) or (s > e1 and s1 > e)):
-                overlapping = True
+    # overlapping: two entries for one ordered pair whose intervals intersect
+    effs = [e for other in m2.migrations for e in other["_eff"]]
+    overlapping = any(x is not y and x[0] == y[0] and x[1] == y[1] and x[2] > y[3] and y[2] > x[3]
+                      for i, x in enumerate(effs) for y in effs[i + 1:])
     return m2, overlapping
